@@ -204,22 +204,11 @@ Definition spec_dec (cs : list N) : option (kind * nat) :=
   | None => None
   end.
 
-Definition blank (cs : list N) : list achar := map (fun c => (c, (0, 0)%Z)) cs.
-
 Definition dec_eqb (a b : option (kind * nat)) : bool :=
   match a, b with
   | Some (k1, n1), Some (k2, n2) => (kind_num k1 =? kind_num k2) && Nat.eqb n1 n2
   | _, _ => false
   end.
-
-Definition check3 (x0 x1 x2 : N) : bool :=
-  if not_special [x0; x1; x2]
-  then dec_eqb (dec (l_scankind 1 false (blank [x0; x1; x2]))) (spec_dec [x0; x1; x2])
-  else true.
-
-(* 25 * 27 * 27 = 18225 evaluations of the lexer and of the declarative choice *)
-Lemma sweep : forallb (fun x0 => forallb (fun x1 => forallb (fun x2 => check3 x0 x1 x2) classes) classes) punct_chars = true.
-Proof. vm_compute. reflexivity. Qed.
 
 Lemma kind_num_inj : forall a b, kind_num a = kind_num b -> a = b.
 Proof.
@@ -341,6 +330,43 @@ Proof.
   - exists (cls c1), (cls c2). split; [reflexivity|]. split; apply cls_in.
 Qed.
 
+Definition decide (o : option (list N * kind)) (x : option (kind * nat)) : bool :=
+  match o with Some (p, k) => dec_eqb x (Some (k, length p)) | None => false end.
+
+Definition checkm (l : list N) : bool :=
+  if not_special l then decide (longest_in puncts_c l) (dec (l_scankind 1 false (blank l))) else true.
+
+Lemma sweep_m : forallb (fun x0 => forallb (fun x1 => forallb (fun x2 => checkm [x0; x1; x2]) classes) classes) punct_chars = true.
+Proof. vm_compute. reflexivity. Qed.
+
+Lemma sweep_m_all : forall c0 x1 x2, In c0 punct_chars -> In x1 classes -> In x2 classes -> checkm [c0; x1; x2] = true.
+Proof.
+  intros c0 x1 x2 H0 H1 H2. pose proof sweep_m as SW.
+  rewrite forallb_forall in SW. specialize (SW c0 H0). rewrite forallb_forall in SW. specialize (SW x1 H1).
+  rewrite forallb_forall in SW. exact (SW x2 H2).
+Qed.
+
+Lemma decide_some : forall o x, decide o x = true -> exists p k, o = Some (p, k) /\ x = Some (k, length p).
+Proof.
+  intros [[p k]|] x H; simpl in H; [|discriminate]. exists p, k. split; [reflexivity|].
+  apply dec_eqb_eq in H. tauto.
+Qed.
+
+Lemma munch_dec2 : forall c0 rest,
+  In c0 punct_chars -> not_special (c0 :: rest) = true ->
+  exists p' k', longest_in puncts_c (c0 :: rest) = Some (p', k') /\
+                dec (l_scankind 1 false (blank (abs3 (c0 :: rest)))) = Some (k', length p').
+Proof.
+  intros c0 rest Hin Hns.
+  destruct (abs3_shape c0 rest) as (x1 & x2 & Ea & I1 & I2).
+  rewrite (cls_self c0 Hin) in Ea.
+  pose proof (sweep_m_all c0 x1 x2 Hin I1 I2) as SW.
+  rewrite <- Ea in SW. unfold checkm in SW.
+  rewrite (not_special_abs3 (c0 :: rest) Hin) in Hns. rewrite Hns in SW.
+  rewrite <- spec_dec_abs3 in SW.
+  exact (decide_some _ _ SW).
+Qed.
+
 Theorem l_maximal_munch : forall fuel sp cs p k,
   In (hd 0 (map fst cs)) punct_chars -> not_special (map fst cs) = true ->
   longest_punct (map fst cs) p k ->
@@ -349,233 +375,9 @@ Proof.
   intros fuel sp cs p k Hin Hns HL.
   destruct (l_punct_abs fuel sp cs Hin Hns) as (k0 & n0 & Hd & HS).
   destruct cs as [|[c0 p0] r]; [simpl in Hin; unfold punct_chars in Hin; simpl in Hin; intuition discriminate|].
-  simpl map in *. simpl hd in Hin.
-  destruct (abs3_shape c0 (map fst r)) as (x1 & x2 & Ea & I1 & I2).
-  pose proof sweep as SW. rewrite forallb_forall in SW.
-  rewrite (cls_self c0 Hin) in Ea.
-  specialize (SW c0 Hin). rewrite forallb_forall in SW. specialize (SW x1 I1).
-  rewrite forallb_forall in SW. specialize (SW x2 I2).
-  unfold check3 in SW. rewrite <- Ea in SW.
-  rewrite <- not_special_abs3 in SW by exact Hin. rewrite Hns in SW.
-  apply dec_eqb_eq in SW. destruct SW as [SW _]. rewrite Hd in SW.
-  unfold spec_dec in SW. rewrite <- spec_dec_abs3 in SW.
-  destruct (longest_in puncts_c (c0 :: map fst r)) as [[p' k']|] eqn:EL; [|discriminate].
-  inversion SW; subst k0 n0.
-  assert (EL' : longest_punct (c0 :: map fst r) p' k') by (apply longest_in_sound; rewrite puncts_eq; exact EL).
-  destruct (longest_punct_unique _ _ _ _ _ HL EL') as [-> ->]. exact HS.
-Qed.
-
-(* ------------------------------------------------------------------ pp-numbers (6.4.8) *)
-(* what may follow the first digit, as a recogniser; `allow`: the previous character was e, E, p or P *)
-Fixpoint tail_ok (allow : bool) (l : list N) : bool :=
-  match l with
-  | [] => true
-  | c :: r =>
-    if expchar c then tail_ok true r
-    else if signchar c then allow && tail_ok false r
-    else if (c =? 95) || (c =? 46) then tail_ok false r
-    else if idchar c then tail_ok false r
-    else false
-  end.
-
-Lemma expchar_nondigit : forall c, expchar c = true -> nondigit c = true.
-Proof.
-  intros c H. unfold expchar in H. unfold nondigit.
-  repeat (apply orb_true_iff in H; destruct H as [H|H]); apply N.eqb_eq in H; subst; reflexivity.
-Qed.
-
-Lemma signchar_not : forall c, signchar c = true -> expchar c = false /\ idchar c = false /\ (c =? 95) = false /\ (c =? 46) = false.
-Proof.
-  intros c H. unfold signchar in H. apply orb_true_iff in H. destruct H as [H|H]; apply N.eqb_eq in H; subst; repeat split; reflexivity.
-Qed.
-
-Lemma nondigit_idchar : forall c, nondigit c = true -> idchar c = true.
-Proof. intros. unfold idchar. now rewrite H. Qed.
-Lemma digit_idchar : forall c, digit c = true -> idchar c = true.
-Proof. intros. unfold idchar. rewrite H. apply orb_true_r. Qed.
-
-Lemma idchar_not_sign : forall c, idchar c = true -> signchar c = false.
-Proof.
-  intros c H. destruct (signchar c) eqn:E; [|reflexivity].
-  apply signchar_not in E. destruct E as (_ & E & _). congruence.
-Qed.
-Lemma dot_not_sign : signchar 46 = false. Proof. reflexivity. Qed.
-
-(* characters that may extend a pp-number on their own *)
-Definition okchar (c : N) : bool := idchar c || (c =? 46).
-
-Lemma tail_ok_snoc : forall t a c, tail_ok a t = true -> okchar c = true -> tail_ok a (t ++ [c]) = true.
-Proof.
-  induction t as [|x t IH]; intros a c H Hc; simpl in *.
-  - destruct (expchar c); [reflexivity|].
-    assert (signchar c = false).
-    { unfold okchar in Hc. apply orb_true_iff in Hc. destruct Hc as [Hc|Hc]; [now apply idchar_not_sign|].
-      apply N.eqb_eq in Hc. subst. reflexivity. }
-    rewrite H0. unfold okchar in Hc.
-    destruct ((c =? 95) || (c =? 46)) eqn:E; [reflexivity|].
-    apply orb_false_iff in E. destruct E as [_ E]. rewrite E, orb_false_r in Hc. now rewrite Hc.
-  - destruct (expchar x); [now apply IH|].
-    destruct (signchar x).
-    { apply andb_true_iff in H. destruct H as [-> H]. simpl. now apply IH. }
-    destruct ((x =? 95) || (x =? 46)); [now apply IH|].
-    destruct (idchar x); [now apply IH|discriminate].
-Qed.
-
-Lemma tail_ok_snoc_exp : forall t a e s, tail_ok a t = true -> expchar e = true -> signchar s = true ->
-  tail_ok a (t ++ [e; s]) = true.
-Proof.
-  induction t as [|x t IH]; intros a e s H He Hs; simpl in *.
-  - rewrite He. destruct (signchar_not _ Hs) as (E1 & _). rewrite E1, Hs. reflexivity.
-  - destruct (expchar x); [now apply IH|].
-    destruct (signchar x).
-    { apply andb_true_iff in H. destruct H as [-> H]. simpl. now apply IH. }
-    destruct ((x =? 95) || (x =? 46)); [now apply IH|].
-    destruct (idchar x); [now apply IH|discriminate].
-Qed.
-
-(* every pp-number has the shape  [.] digit tail  *)
-Lemma ppnumber_shape : forall n, ppnumber n ->
-  (exists d t, n = d :: t /\ digit d = true /\ tail_ok false t = true) \/
-  (exists d t, n = 46 :: d :: t /\ digit d = true /\ tail_ok false t = true).
-Proof.
-  intros n H. induction H.
-  - left. exists d, []. auto.
-  - right. exists d, []. auto.
-  - assert (okchar d = true) by (unfold okchar; now rewrite digit_idchar).
-    destruct IHppnumber as [(d0 & t & -> & A & B)|(d0 & t & -> & A & B)]; [left|right];
-      exists d0, (t ++ [d]); repeat split; auto using tail_ok_snoc.
-  - assert (okchar c = true) by (unfold okchar; now rewrite nondigit_idchar).
-    destruct IHppnumber as [(d0 & t & -> & A & B)|(d0 & t & -> & A & B)]; [left|right];
-      exists d0, (t ++ [c]); repeat split; auto using tail_ok_snoc.
-  - destruct IHppnumber as [(d0 & t & -> & A & B)|(d0 & t & -> & A & B)]; [left|right];
-      exists d0, (t ++ [e; s]); repeat split; auto using tail_ok_snoc_exp.
-  - assert (okchar 46 = true) by reflexivity.
-    destruct IHppnumber as [(d0 & t & -> & A & B)|(d0 & t & -> & A & B)]; [left|right];
-      exists d0, (t ++ [46]); repeat split; auto using tail_ok_snoc.
-Qed.
-
-(* conversely: anything of that shape is a pp-number *)
-Lemma ppnumber_tail : forall t n a,
-  ppnumber n -> (a = true -> exists n0 e, n = n0 ++ [e] /\ ppnumber n0 /\ expchar e = true) ->
-  tail_ok a t = true -> ppnumber (n ++ t).
-Proof.
-  induction t as [|c t IH]; intros n a Hn Ha Ht; simpl in Ht.
-  - now rewrite app_nil_r.
-  - replace (n ++ c :: t) with ((n ++ [c]) ++ t) by (rewrite <- app_assoc; reflexivity).
-    destruct (expchar c) eqn:Ee.
-    { apply (IH _ true); auto.
-      - apply pp_nondigit; auto using expchar_nondigit.
-      - intros _. exists n, c. auto. }
-    destruct (signchar c) eqn:Es.
-    { apply andb_true_iff in Ht. destruct Ht as [-> Ht].
-      destruct (Ha eq_refl) as (n0 & e & -> & Hn0 & He).
-      apply (IH _ false); auto; [|discriminate].
-      rewrite <- app_assoc. simpl. now apply pp_exp_sign. }
-    destruct ((c =? 95) || (c =? 46)) eqn:E.
-    { apply (IH _ false); auto; [|discriminate].
-      apply orb_true_iff in E. destruct E as [E|E]; apply N.eqb_eq in E; subst.
-      - apply pp_nondigit; auto.
-      - now apply pp_dot. }
-    destruct (idchar c) eqn:Ei; [|discriminate].
-    apply (IH _ false); auto; [|discriminate].
-    unfold idchar in Ei. apply orb_true_iff in Ei. destruct Ei as [Ei|Ei].
-    + now apply pp_nondigit.
-    + now apply pp_digit_more.
-Qed.
-
-Lemma ppnumber_of_shape : forall d t, digit d = true -> tail_ok false t = true -> ppnumber (d :: t).
-Proof.
-  intros d t Hd Ht. apply (ppnumber_tail t [d] false); auto using pp_digit. discriminate.
-Qed.
-Lemma ppnumber_of_shape_dot : forall d t, digit d = true -> tail_ok false t = true -> ppnumber (46 :: d :: t).
-Proof.
-  intros d t Hd Ht. apply (ppnumber_tail t [46; d] false); auto using pp_dot_digit. discriminate.
-Qed.
-
-Lemma l_num_split : forall r a, map fst r = fst (l_num a r) ++ map fst (snd (l_num a r)).
-Proof.
-  induction r as [|x r IH]; intros a; simpl; [reflexivity|].
-  destruct (expchar (fst x)); simpl; [now rewrite <- IH|].
-  destruct (signchar (fst x)). { destruct a; simpl; [now rewrite <- IH|reflexivity]. }
-  destruct ((fst x =? 95) || (fst x =? 46)); simpl; [now rewrite <- IH|].
-  destruct (idchar (fst x)); simpl; [now rewrite <- IH|reflexivity].
-Qed.
-
-Lemma l_num_ok : forall r a, tail_ok a (fst (l_num a r)) = true.
-Proof.
-  induction r as [|x r IH]; intros a; simpl; [reflexivity|].
-  destruct (expchar (fst x)) eqn:E1; simpl; [now rewrite E1|].
-  destruct (signchar (fst x)) eqn:E2. { destruct a; simpl; [now rewrite E1, E2|reflexivity]. }
-  destruct ((fst x =? 95) || (fst x =? 46)) eqn:E3; simpl; [now rewrite E1, E2, E3|].
-  destruct (idchar (fst x)) eqn:E4; simpl; [now rewrite E1, E2, E3, E4|reflexivity].
-Qed.
-
-Lemma l_num_max : forall t r a, tail_ok a t = true -> is_prefix t (map fst r) ->
-  (length t <= length (fst (l_num a r)))%nat.
-Proof.
-  induction t as [|c t IH]; intros r a Ht [q Hq]; simpl; [lia|].
-  destruct r as [|x r]; [discriminate|]. simpl in Hq. inversion Hq; subst c.
-  assert (Hp : is_prefix t (map fst r)) by (exists q; assumption).
-  simpl in Ht |- *.
-  destruct (expchar (fst x)); simpl. { specialize (IH r true Ht Hp). lia. }
-  destruct (signchar (fst x)).
-  { apply andb_true_iff in Ht. destruct Ht as [-> Ht]. simpl. specialize (IH r false Ht Hp). lia. }
-  destruct ((fst x =? 95) || (fst x =? 46)); simpl. { specialize (IH r false Ht Hp). lia. }
-  destruct (idchar (fst x)); simpl; [|discriminate]. specialize (IH r false Ht Hp). lia.
-Qed.
-
-(* the lexeme the lexer takes for a number is the longest pp-number that is a prefix of the text *)
-Theorem l_ppnumber_spec : forall x r,
-  digit (fst x) = true ->
-  longest_prefix ppnumber (map fst (x :: r)) (fst x :: fst (l_num false r)).
-Proof.
-  intros x r Hd. repeat split.
-  - apply ppnumber_of_shape; auto using l_num_ok.
-  - exists (map fst (snd (l_num false r))). simpl. f_equal. apply l_num_split.
-  - intros pre' Hp [q Hq]. simpl in Hq.
-    destruct (ppnumber_shape _ Hp) as [(d & t & -> & A & B)|(d & t & -> & A & B)].
-    + inversion Hq; subst. simpl. apply le_n_S. apply l_num_max; auto. exists q. assumption.
-    + inversion Hq. rewrite <- H0 in Hd. discriminate.
-Qed.
-
-Theorem l_ppnumber_spec_dot : forall x y r,
-  fst x = 46 -> digit (fst y) = true ->
-  longest_prefix ppnumber (map fst (x :: y :: r)) (46 :: fst y :: fst (l_num false r)).
-Proof.
-  intros x y r Hx Hd. repeat split.
-  - apply ppnumber_of_shape_dot; auto using l_num_ok.
-  - exists (map fst (snd (l_num false r))). simpl. rewrite Hx. f_equal. f_equal. apply l_num_split.
-  - intros pre' Hp [q Hq]. simpl in Hq. rewrite Hx in Hq.
-    destruct (ppnumber_shape _ Hp) as [(d & t & -> & A & B)|(d & t & -> & A & B)].
-    + inversion Hq. subst d. discriminate.
-    + inversion Hq; subst. simpl. apply le_n_S, le_n_S. apply l_num_max; auto. exists q. assumption.
-Qed.
-
-(* ------------------------------------------------------------------ identifiers (6.4.2) *)
-Lemma l_span_split : forall f r, map fst r = fst (l_span f r) ++ map fst (snd (l_span f r)).
-Proof. induction r as [|x r IH]; simpl; [reflexivity|]. destruct (f (fst x)); simpl; [now rewrite <- IH|reflexivity]. Qed.
-
-Lemma l_span_all : forall f r, Forall (fun c => f c = true) (fst (l_span f r)).
-Proof. induction r as [|x r IH]; simpl; [constructor|]. destruct (f (fst x)) eqn:E; simpl; [constructor; auto|constructor]. Qed.
-
-Lemma l_span_max : forall f t r, Forall (fun c => f c = true) t -> is_prefix t (map fst r) ->
-  (length t <= length (fst (l_span f r)))%nat.
-Proof.
-  induction t as [|c t IH]; intros r Ht [q Hq]; simpl; [lia|].
-  destruct r as [|x r]; [discriminate|]. simpl in Hq. inversion Hq; subst c.
-  inversion Ht; subst. simpl. rewrite H1. simpl. apply le_n_S. apply IH; auto. exists q. assumption.
-Qed.
-
-Theorem l_ident_spec : forall x r,
-  nondigit (fst x) = true ->
-  longest_prefix identifier (map fst (x :: r)) (fst (l_span idchar (x :: r))).
-Proof.
-  intros x r Hn. assert (Hi : idchar (fst x) = true) by now apply nondigit_idchar.
-  simpl l_span. rewrite Hi. simpl fst. repeat split.
-  - auto.
-  - apply l_span_all.
-  - exists (map fst (snd (l_span idchar r))). simpl. f_equal. apply l_span_split.
-  - intros pre' Hp [q Hq]. destruct pre' as [|c t]; [contradiction|].
-    destruct Hp as [Hc Ht]. simpl in Hq. inversion Hq; subst. simpl. apply le_n_S.
-    apply l_span_max; auto. exists q. assumption.
+  change (map fst ((c0, p0) :: r)) with (c0 :: map fst r) in *. simpl hd in Hin.
+  destruct (munch_dec2 c0 (map fst r) Hin Hns) as (p' & k' & M1 & M2).
+  rewrite Hd in M2. inversion M2; subst k0 n0.
+  assert (EL' : longest_punct (c0 :: map fst r) p' k') by (apply longest_in_sound; rewrite puncts_eq; exact M1).
+  destruct (longest_punct_unique _ _ _ _ _ HL EL') as [E1 E2]. subst p k. exact HS.
 Qed.
